@@ -1,5 +1,5 @@
 (* C13 - connect() and run() end with the documented outcome, and only then. *)
-From Poster Require Import Model.Client Proofs.ClientP Proofs.RunP.
+From Poster Require Import Model.Sim Proofs.ClientP Proofs.RunP Proofs.SimInvP Proofs.SettleP.
 
 (* run(): a handler makes the loop exit only for a documented cause, with its outcome.
    Inbound packets (no transport fault): only a server DISCONNECT (Ok for reason 0,
@@ -54,3 +54,13 @@ Theorem C13_run_loop : forall (fuel : nat) (s : sys), wbudget s = None -> cph s 
   exists s0 r, wbudget s0 = None /\ run_exit_cause s0 r /\ tail_ev (settle_loop fuel s) = tail_ev s ++ [ORun r].
 Proof. exact settle_loop_exit. Qed.
 Print Assumptions C13_run_loop.
+
+(* once run() has returned - whatever the cause: the user's DISCONNECT written in full (C13_user_disconnect), a server
+   DISCONNECT, the end of the transport ... - the Context task is not running (exit_run: phase CIdle), and polling it
+   changes nothing: nothing is read, nothing is written after the DISCONNECT, no request is taken from the queue *)
+Theorem C13_exit_is_final : forall (s : sys) (r : runres), cph (exit_run s r) = CIdle.
+Proof. reflexivity. Qed.
+Print Assumptions C13_exit_is_final.
+Theorem C13_nothing_after_exit : forall (s : sys), cph s = CIdle -> forall n : nat, settle_loop n s = s.
+Proof. intros s Hc n. apply stopped_fix. unfold Stopped. rewrite Hc. exact I. Qed.
+Print Assumptions C13_nothing_after_exit.
